@@ -451,6 +451,14 @@ def run(tier, seed, which="C11"):
         obligations.append(ob)
     if which == "C12":
         obligations.append(filter_obligation(prog))
+        from . import c12query
+        qob = c12query.run(tier, seed)
+        if qob.get("verdict") == "violation":
+            from lib import native as _n
+            pth = _n.write_replay("C12", "c12", "model", [], {"engine": "smt", "mode": "model-only", "obligation": qob["harness"], "message": qob["message"], "model": qob.get("counterexample")})
+            qob["replay_path"] = pth
+            qob["replay"] = {"path": pth, "outcome": "model-only", "message": "registered instances (enabled, healthy), protection threshold and query flag"}
+        obligations.append(qob)
     actor_hist = []
     if which in ("C11", "C12"):
         from . import c11actor
